@@ -378,3 +378,162 @@ def ids_to_block(S, ids):
         else:
             out.append((d, None))
     return out
+
+
+# ---------------------------------------------------------------- bounded synthesizer
+class Budget(Exception):
+    pass
+
+
+def synthesize(S, bound, max_height=None, node_budget=300000, all_min=False):
+    """Iterative-deepening search for a realizing id sequence of length <= bound (peak height <=
+    max_height).  Complete up to the bound unless the node budget is exhausted (raises Budget).
+    Returns the shortest realizing sequence found, or None if none exists within the bound."""
+    byid = by_id(S)
+    instrs = S["user_instrs"]
+    tgt = list(S["tgt_ws"])
+    src = list(S["src_ws"])
+    deps = dep_pairs(S)
+    stores = [i["id"] for i in instrs if i.get("storage")]
+    before = {}
+    for a, b in deps:
+        before.setdefault(b, set()).add(a)
+    after = {}
+    for a, b in deps:
+        after.setdefault(a, set()).add(b)
+    # how often each variable is needed at most (for pruning DUPs)
+    uses = {}
+    for v in tgt:
+        uses[v] = uses.get(v, 0) + 1
+    for i in instrs:
+        for v in i.get("inpt_sk", []):
+            if isinstance(v, str):
+                uses[v] = uses.get(v, 0) + 1
+    producers = {}
+    for i in instrs:
+        for o in i.get("outpt_sk", []):
+            producers[o] = i
+    nodes = [0]
+    if max_height is None:
+        max_height = 1024
+
+    def same(a, b):
+        ka, kb = as_int(a), as_int(b)
+        if ka is not None or kb is not None:
+            return ka is not None and kb is not None and ka == kb
+        return a == b
+
+    def applicable(ins, st):
+        inp = ins.get("inpt_sk", [])
+        if len(st) < len(inp):
+            return False
+        got = st[:len(inp)]
+        if all(same(a, b) for a, b in zip(got, inp)):
+            return True
+        if ins.get("commutative") and len(inp) == 2 and same(got[0], inp[1]) and same(got[1], inp[0]):
+            return True
+        return False
+
+    def lower_bound(st, done_stores, computed):
+        # stores still to execute + needed values never produced so far
+        lb = sum(1 for s in stores if s not in done_stores)
+        need = set()
+        stack_set = set(st)
+
+        def req(v, seen):
+            if v in seen or as_int(v) is not None:
+                return
+            seen.add(v)
+            if v in stack_set:
+                return
+            p = producers.get(v)
+            if p is None:
+                return
+            need.add(p["id"])
+            for a in p.get("inpt_sk", []):
+                req(a, seen)
+        seen = set()
+        for v in tgt:
+            req(v, seen)
+        for s in stores:
+            if s not in done_stores:
+                for a in byid[s].get("inpt_sk", []):
+                    req(a, seen)
+        lb += len(need)
+        if len(st) > len(tgt) + sum(1 for s in stores if s not in done_stores) * 2 + 3 * len(need):
+            lb += 1
+        return lb
+
+    best = [None]
+
+    def dfs(st, done_stores, executed, seq, limit, last):
+        nodes[0] += 1
+        if nodes[0] > node_budget:
+            raise Budget()
+        if len(st) == len(tgt) and all(same(a, b) for a, b in zip(st, tgt)) and len(done_stores) == len(stores):
+            best[0] = list(seq)
+            return True
+        if len(seq) >= limit:
+            return False
+        if len(seq) + lower_bound(st, done_stores, executed) > limit:
+            return False
+        # instructions
+        for ins in instrs:
+            iid = ins["id"]
+            if ins.get("storage") and iid in done_stores:
+                continue
+            if not applicable(ins, st):
+                continue
+            # dependencies: everything that must precede must have been executed (at least once)
+            pre = before.get(iid, ())
+            if any((p not in executed) for p in pre):
+                continue
+            # executing iid again after something that must follow it is not allowed
+            if any((a in executed) for a in after.get(iid, ())):
+                continue
+            out = ins.get("outpt_sk", [])
+            if out and uses.get(out[0], 0) == 0:
+                continue
+            n = len(ins.get("inpt_sk", []))
+            st2 = list(out) + st[n:]
+            if len(st2) > max_height:
+                continue
+            ds = done_stores | {iid} if ins.get("storage") else done_stores
+            seq.append(iid)
+            if dfs(st2, ds, executed | {iid}, seq, limit, iid):
+                return True
+            seq.pop()
+        # stack operations
+        h = len(st)
+        for k in range(1, min(16, h) + 1):
+            v = st[k - 1]
+            if uses.get(v, 0) <= st.count(v) - 0 and st.count(v) >= uses.get(v, 0):
+                continue            # duplicating a value of which enough copies exist is never needed
+            if h + 1 > max_height:
+                break
+            seq.append("DUP%d" % k)
+            if dfs([v] + st, done_stores, executed, seq, limit, "DUP"):
+                return True
+            seq.pop()
+        for k in range(1, min(16, h - 1) + 1):
+            if last == "SWAP%d" % k:
+                continue
+            if st[0] == st[k]:
+                continue
+            st2 = list(st)
+            st2[0], st2[k] = st2[k], st2[0]
+            seq.append("SWAP%d" % k)
+            if dfs(st2, done_stores, executed, seq, limit, "SWAP%d" % k):
+                return True
+            seq.pop()
+        if h and last != "DUP":
+            seq.append("POP")
+            if dfs(st[1:], done_stores, executed, seq, limit, "POP"):
+                return True
+            seq.pop()
+        return False
+
+    for limit in range(0, bound + 1):
+        if dfs(list(src), frozenset(), frozenset(), [], limit, None):
+            return best[0]
+    return None
